@@ -76,6 +76,8 @@ def generate(tier, rng):
                         if any(all(Fraction(v) == 0 for kk, v in zip(keys, vals) if kk[w] == it) for it in ds[w]["items"]):
                             continue
                     cases.append(dict(stream="exact", kind="direct", dims=ds, values=vals, index=index, dim_to_columns=d2c, sparse=sparse))
+                    if (k + len(cases)) % 5 == 0:
+                        cases.append(dict(cases[-1], derived_dims=True))
                     if (k + len(cases)) % 3 == 0:
                         cases.append(dict(cases[-1], into=["int64", "float32", "int32"][(k + len(cases)) % 3 if False else len(cases) % 3]))
         # the same array in a unit 2^70 times larger (entries of the order 1e-21): a sparse table lists exactly the NON-ZERO entries,
@@ -138,6 +140,14 @@ def run_impl(case):
     import flodym as fd
     ds = case["dims"]
     dims = fl_dims_t(ds)
+    if case.get("derived_dims"):
+        # the dimensions are made from Dimension objects that were in use before with their items in another order (a table was read
+        # over them), by copying the object with the new item list
+        ds0 = [dict(d, items=list(reversed(d["items"]))) for d in ds]
+        dims0 = fl_dims_t(ds0)
+        a0 = fd.FlodymArray(dims=dims0, values=np.arange(float(np.prod(dims0.shape))).reshape(dims0.shape))
+        fd.FlodymArray.from_df(dims=dims0, df=a0.to_df(index=False))
+        dims = fd.DimensionSet(dim_list=[d0.model_copy(update={"items": list(d["items"])}) for d0, d in zip(dims0.dim_list, ds)])
     vals = np.array([float(Fraction(v)) for v in case["values"]]).reshape(dims.shape)
     if case["kind"] in ("export", "direct"):
         if case["index"] and vals.ndim >= 2:
